@@ -82,6 +82,7 @@ record_links = REG.add(Contract(
     loops={1: Loop(_rl_inv)},
     consts={"NO_RECORD_LINK": __import__("z3").IntVal(-1)},
     call_names=("record_links", "strax.record_links"),
+    returns=(ArrT("int"), ArrT("int")),
 ))
 
 
@@ -173,4 +174,127 @@ cut_baseline = REG.add(Contract(
     modifies=["records"],
     consts={"ReductionLevel.BASELINE_CUT": _z3.IntVal(1), "np.int32": None},
     call_names=("cut_baseline", "strax.cut_baseline"),
+))
+
+
+# --------------------------------------------------------------------------------------
+# _cut_outside_hits (data_reduction.py): exactly the samples near a hit survive - in the hit's own record and, where the
+# extension reaches over the record's edge, in the linked previous / next fragment of the same pulse
+# --------------------------------------------------------------------------------------
+from pyvc.engine import ArrT  # noqa: E402,F811
+
+HITS = RowsT(time="int", length="int", dt="int", channel="int", left="int", right="int", record_i="int", area="real")
+
+_COH_KEPT = _z3.Function("coh_kept", _z3.IntSort(), _z3.IntSort(), _z3.IntSort(), _z3.BoolSort())   # kept(k, r, s): covered by a hit < k
+_COH_PREV = _z3.Function("coh_prev", _z3.IntSort(), _z3.IntSort())
+_COH_NEXT = _z3.Function("coh_next", _z3.IntSort(), _z3.IntSort())
+
+
+class _FnArr:
+    """array-like view of an uninterpreted function (for the link predicates of record_links)"""
+
+    def __init__(self, fn, n):
+        self._fn, self.n = fn, n
+
+    def at(self, i):
+        return self._fn(i)
+
+
+def _coh_covers(S, a, prev, nxt, w, h, r, s):
+    """sample s of record r lies within the extensions of hit h (own record, or the linked previous / next fragment)"""
+    hits, rec = a.hits, a.records
+    ri = hits.f("record_i", h)
+    start_keep = hits.f("left", h) - a.left_extension
+    end_keep = hits.f("right", h) + a.right_extension
+    own = S.And(r == ri, 0 <= s, s < rec.f("length", ri), start_keep <= s, s < end_keep)
+    before = S.And(prev(ri) == r, start_keep < 0, s >= w + start_keep)
+    after = S.And(nxt(ri) == r, end_keep > w, s < end_keep - w)
+    return S.Or(own, before, after)
+
+
+def _coh_kept(S, a, k, r, s):
+    if S.symbolic:
+        return _COH_KEPT(k, r, s)
+    import strax
+    prev, nxt = strax.record_links(a.records.arr)
+    w = _rl_width(S, a.records)
+    return any(bool(_coh_covers(S, a, lambda i: int(prev[int(i)]), lambda i: int(nxt[int(i)]), w, h, r, s)) for h in range(int(k)))
+
+
+def _coh_data_ok(S, a, new, k):
+    rec = a.records
+    w = _rl_width(S, rec)
+    return S.forall2(0, rec.n, 0, w, lambda r, s: new.f2("data", r, s) == S.If(_coh_kept(S, a, k, r, s), rec.f2("data", r, s), 0))
+
+
+def _coh_requires(S, a):
+    rec, hits, new = a.records, a.hits, a.new_recs
+    w = _rl_width(S, rec)
+    out = [("one blank output record per record", S.And(new.n == rec.n, a.left_extension >= 0, a.right_extension >= 0)),
+           ("pulse lengths fit the records", S.forall(0, rec.n, lambda i: S.And(0 <= rec.f("length", i), rec.f("length", i) <= w))),
+           ("every hit lies inside the valid samples of the record it names",
+            S.forall(0, hits.n, lambda h: S.And(0 <= hits.f("record_i", h), hits.f("record_i", h) < rec.n, 0 <= hits.f("left", h),
+                                                hits.f("left", h) < hits.f("right", h),
+                                                hits.f("right", h) <= rec.f("length", hits.f("record_i", h))))),
+           ("the output waveforms start blank", S.forall2(0, rec.n, 0, w, lambda r, s: new.f2("data", r, s) == 0))]
+    if S.symbolic:
+        out.append(("both arrays have the same number of samples per record",
+                    S.And(S.eng.row_width(new.arr.base, "data") == w, w > 0)))
+    return out
+
+
+def _coh_axioms(S, a):
+    if not S.symbolic:
+        return []
+    rec, hits = a.records, a.hits
+    w = _rl_width(S, rec)
+    n = rec.n
+    k, r, s = _z3.Ints("coh_k coh_r coh_s")
+    gp, gn = _FnArr(_COH_PREV, n), _FnArr(_COH_NEXT, n)
+    kept0 = _z3.ForAll([r, s], _z3.Not(_COH_KEPT(0, r, s)), patterns=[_COH_KEPT(0, r, s)])
+    k2 = _z3.Int("coh_k2")
+    # unfolding stated over two indices (k2 = k + 1) so that the trigger holds no arithmetic: both kept(k, r, s) - from the
+    # invariant before the step - and kept(k + 1, r, s) - from the invariant after it - are terms of the obligation
+    step = _z3.ForAll([k, k2, r, s], _z3.Implies(_z3.And(0 <= k, k < hits.n, k2 == k + 1),
+                                                 _COH_KEPT(k2, r, s) == _z3.Or(_COH_KEPT(k, r, s),
+                                                                               S.b(_coh_covers(S, a, _COH_PREV, _COH_NEXT, w, k, r, s)))),
+                      patterns=[_z3.MultiPattern(_COH_KEPT(k2, r, s), _COH_KEPT(k, r, s))])
+    links = S.And(S.forall(0, n, lambda i: _prev_ok(S, rec, w, gp, i)), _next_ok(S, gp, gn, n, n))
+    return [("definition of kept(k, r, s): sample s of record r is covered by one of the first k hits (unfolding)", _z3.And(kept0, step)),
+            ("coh_prev / coh_next are the links record_links defines (its proved postcondition determines them uniquely)", S.b(links))]
+
+
+def _coh_links_eq(S, a, n):
+    """previous_record[i] / next_record[i] are the ghost links, for every record; triggered by the array reads themselves (the code
+    reads the links at hits[k].record_i, an index no goal marks)"""
+    i = _z3.Int("coh_i")
+    p_, n_ = a.previous_record.at(i), a.next_record.at(i)
+    return _z3.And(_z3.ForAll([i], _z3.Implies(_z3.And(0 <= i, i < n), p_ == _COH_PREV(i)), patterns=[p_, _COH_PREV(i)]),
+                   _z3.ForAll([i], _z3.Implies(_z3.And(0 <= i, i < n), n_ == _COH_NEXT(i)), patterns=[n_, _COH_NEXT(i)]))
+
+
+def _coh_inv(S, a):
+    rec, new, k = a.records, a.new_recs, a.k_
+    n = rec.n
+    return [("shape", S.And(a.samples_per_record == _rl_width(S, rec), n > 0, a.previous_record.n == n, a.next_record.n == n)),
+            ("the links in use are the links of record_links", _coh_links_eq(S, a, n)),
+            ("samples covered by the hits done are copied, all others are still blank", _coh_data_ok(S, a, new, k)),
+            ("metadata of the output records is untouched", _meta_same(S, new, a.old.new_recs, 0, n, META))]
+
+
+cut_outside_hits_core = REG.add(Contract(
+    FR, "_cut_outside_hits",
+    params=dict(records=RECORDS, hits=HITS, new_recs=RECORDS, left_extension="int", right_extension="int"),
+    requires=_coh_requires,
+    ensures=lambda S, a, r: [
+        ("a sample survives exactly if it lies within the extensions of some hit - in the hit's record or continuing into the "
+         "linked previous / next fragment of the pulse; every other sample is zero",
+         _coh_data_ok(S, a, a.new_recs, a.hits.n)),
+        ("record metadata is never altered", _meta_same(S, a.new_recs, a.old.new_recs, 0, a.records.n, META))],
+    raises={"ValueError": lambda S, a: S.exists(0, a.records.n, lambda j: a.records.f("channel", j) < 0)},
+    loops={1: Loop(_coh_inv)},
+    modifies=["new_recs"],
+    lemma_facts=_coh_axioms,
+    consts={"NO_RECORD_LINK": _z3.IntVal(-1)},
+    call_names=("_cut_outside_hits",),
 ))
